@@ -54,6 +54,40 @@ static void smallSingle(Env& env, const std::string& stage, int n, const dom::Al
   }, 16, 60);
 }
 
+// duplicated-state twins: every trimmed automaton A of a small domain with one state q split into two copies q, q' (every rule in every combination of q / q' at the
+// occurrences of q; q' final iff q is).  B = dup(A,q) has the language of A, several rules with the SAME left-hand side and different parents, and n+1 states.
+// Checked with no reference model at all: (1) everything observable of B is invariant under all (n+1)! bijections x {ascending, descending} construction;
+// (2) the twins simulate each other, downward and upward; (3) all 8 inclusion algorithms say A <= B and B <= A; (4) Reduce(B) has no more states than A.
+static void smallSingleDup(Env& env, const std::string& stage, int n, const dom::Alphabet& sig, int k, size_t maxRules) {
+  auto D = std::make_shared<dom::TADomain>(n, sig, k, false, true); D->keepTrimmedOnly(); int m = n + 1;
+  std::vector<std::vector<size_t>> perms; { std::vector<size_t> p(m); for (int i = 0; i < m; i++) p[i] = i; do perms.push_back(p); while (std::next_permutation(p.begin(), p.end())); }
+  dom::forEachTA(env, stage, D, [D, perms, n, m, maxRules](const ref::TA& A, size_t idx, Ctx& c) {
+    if ((int)A.states().size() != n) return; c.evals(); uint64_t w = A.rules.size();
+    for (size_t q = 0; q < (size_t)n; q++) {
+      ref::TA B; for (auto f : A.finals) { B.finals.insert(f); if (f == q) B.finals.insert(n); }
+      for (auto& r : A.rules) { std::vector<size_t*> occ; ref::Rule t = r; for (auto& ch : t.ch) if (ch == q) occ.push_back(&ch); if (t.par == q) occ.push_back(&t.par); for (unsigned mask = 0; mask < (1u << occ.size()); mask++) { for (size_t i = 0; i < occ.size(); i++) *occ[i] = (mask >> i & 1) ? (size_t)n : q; B.rules.insert(t); } }
+      if (B.rules.size() > maxRules) { c.count("twin_too_large_skipped"); continue; } c.nontrivial(); c.count("twins");
+      std::string what = D->str(A) + " | state " + std::to_string(q) + " duplicated as " + std::to_string(n) + ": " + D->str(B);
+      if (c.wantSample() && B.rules.size() >= 6) c.sample(what);
+      std::vector<int> asc(B.rules.size()), desc; for (size_t i = 0; i < asc.size(); i++) asc[i] = (int)i; desc.assign(asc.rbegin(), asc.rend()); std::vector<int> symId(D->sig.ranks.size()); for (size_t i = 0; i < symId.size(); i++) symId[i] = (int)i;
+      try { std::vector<size_t> idp(m); for (int i = 0; i < m; i++) idp[i] = i; ExplicitTreeAut b0 = buildVariant(B, [](size_t x) { return x; }, symId, asc); Obs base = observe(b0, m, idp, true);
+        // (2) the twins are simulation-equivalent (matrix is row-major over the original names)
+        auto rel = [&](const std::string& mx, size_t x, size_t y) { return mx[x * m + y] == '1'; };
+        if (!rel(base.downSim, q, n) || !rel(base.downSim, n, q)) c.viol("duplicated-state twin", "downward_simulation_does_not_relate_the_twins", {}, what + " downSim=" + base.downSim, w);
+        if (!rel(base.upSim, q, n) || !rel(base.upSim, n, q)) c.viol("duplicated-state twin", "upward_simulation_does_not_relate_the_twins", {}, what + " upSim=" + base.upSim, w);
+        // (4) and (3)
+        if (base.redS > (size_t)n) c.viol("duplicated-state twin", "Reduce_keeps_both_twins", {}, what + " Reduce has " + std::to_string(base.redS) + " states", w);
+        { ExplicitTreeAut a0 = dom::build(A); for (auto& v : VAR) { std::string e1, e2; int g1 = c01::callIncl(a0, b0, v, &e1), g2 = c01::callIncl(b0, a0, v, &e2); c.count("calls", 2); if (g1 != 1 || g2 != 1) c.viol(std::string("duplicated-state twin/") + v.name, g1 != 1 ? "A_not_included_in_its_twin_form" : "twin_form_not_included_in_A", {}, what + " " + e1 + e2, w); } }
+        // (1) invariance
+        for (auto& pi : perms) for (int od = 0; od < 2; od++) { if (od == 0 && pi == idp) continue; Obs o = observe(buildVariant(B, [&pi](size_t x) { return pi[x]; }, symId, od ? desc : asc), m, pi, true); c.count("variants");
+          if (!(o == base)) { std::string tag = "state map:"; for (int x = 0; x < m; x++) tag += " " + std::to_string(x) + "->" + std::to_string(pi[x]); tag += od ? " descending construction" : " ascending construction";
+            std::string cls = o.empty != base.empty ? "emptiness_verdict_changed" : o.downSim != base.downSim || o.upSim != base.upSim ? "simulation_not_the_renamed_image" : "result_size_changed";
+            c.viol("renamed twin of one automaton", cls, {"duplicated_state"}, what + " | " + tag + "\nbase:    " + base.str() + "\nvariant: " + o.str(), w); break; } }
+      } catch (std::exception& e) { c.viol("duplicated-state twin", "exception", {}, what + " " + e.what(), w); }
+    }
+  }, 16, 60);
+}
+
 static void smallPairs(Env& env, const std::string& stage, int n, const dom::Alphabet& sig, int perSide, int totalMax) {
   auto D = std::make_shared<dom::TADomain>(n, sig, perSide); auto P = std::make_shared<dom::PairIndex>(*D, totalMax); int ns = (int)sig.ranks.size(); env.noteNum(stage + ".automata", D->size());
   std::vector<std::vector<size_t>> perms; { std::vector<size_t> p(n); for (int i = 0; i < n; i++) p[i] = i; do perms.push_back(p); while (std::next_permutation(p.begin(), p.end())); }
@@ -170,12 +204,18 @@ static Register st3("c19.small.single.trim.n3ahk3", "C19", "every TRIMMED automa
 static Register st4("c19.small.single.trim.n3agk4", "C19", "every TRIMMED automaton of TA(3,{a:0,g:2},<=4) under all renamings / orders: incl. upward simulation mapped back", [](Env& e) { smallSingle(e, "c19.small.single.trim.n3agk4", 3, dom::SigmaAG(), 4, true); });
 static Register st5("c19.small.single.trim.n3s3pk4", "C19", "every TRIMMED automaton of TA(3,{a:0,f:1,g:2},<=4) under all renamings / orders", [](Env& e) { smallSingle(e, "c19.small.single.trim.n3s3pk4", 3, dom::Sigma3p(), 4, true); });
 static Register st6("c19.small.single.trim.n4agk4", "C19", "every TRIMMED automaton of TA(4,{a:0,g:2},<=4) under all 24 state bijections / orders", [](Env& e) { smallSingle(e, "c19.small.single.trim.n4agk4", 4, dom::SigmaAG(), 4, true); });
+static Register du1("c19.small.dup.n3agk3", "C19", "every trimmed automaton of TA(3,{a:0,g:2},<=3) x every state duplicated (4 states, rules with equal left-hand sides): invariance under all 24 bijections x 2 constructions, twins simulate each other, 8 inclusion variants say equivalent, Reduce merges the twins", [](Env& e) { smallSingleDup(e, "c19.small.dup.n3agk3", 3, dom::SigmaAG(), 3, 12); });
+static Register du2("c19.small.dup.n3s3pk3", "C19", "same over TA(3,{a:0,f:1,g:2},<=3)", [](Env& e) { smallSingleDup(e, "c19.small.dup.n3s3pk3", 3, dom::Sigma3p(), 3, 12); });
+static Register du3("c19.small.dup.n3agk4", "C19", "same over TA(3,{a:0,g:2},<=4)", [](Env& e) { smallSingleDup(e, "c19.small.dup.n3agk4", 3, dom::SigmaAG(), 4, 14); });
+static Register du4("c19.small.dup.n2s3k4", "C19", "same over TA(2,{a:0,b:0,f:1,g:2},<=4)", [](Env& e) { smallSingleDup(e, "c19.small.dup.n2s3k4", 2, dom::Sigma3(), 4, 14); });
 static Register s2("c19.small.single.n3k2", "C19", "TA(3,{a:0,f:1,g:2},<=2) under all renamings/orders", [](Env& e) { smallSingle(e, "c19.small.single.n3k2", 3, dom::Sigma3p(), 2); });
 static Register s3("c19.small.pairs.n2t3", "C19", "every pair of TA(2,{a:0,b:0,g:2}) with total <=3 rules under all bijections x embeddings x symbol-id permutations x insertion orders, 8 inclusion variants", [](Env& e) { smallPairs(e, "c19.small.pairs.n2t3", 2, dom::Sigma2(), 2, 3); });
 static Register s4("c19.small.pairs.n2k2", "C19", "every pair of TA(2,{a:0,b:0,g:2},<=2 per side) under all renamings/orders, 8 variants", [](Env& e) { smallPairs(e, "c19.small.pairs.n2k2", 2, dom::Sigma2(), 2, 4); });
 static Register s5("c19.small.pairs.trim.n2s3.a2b3", "C19", "pairs of TRIMMED automata of TA(2,{a:0,b:0,f:1,g:2}) (A <=2, B <=3 rules) under all state bijections x embeddings x all 24 symbol-id permutations x 2 insertion orders, 4 no-sim variants + down_nonrec_sim", [](Env& e) { smallPairsTrim(e, "c19.small.pairs.trim.n2s3.a2b3", 2, dom::Sigma3(), 2, 3); });
 static Register s6("c19.small.pairs.trim.n2s3.a3b3", "C19", "pairs of TRIMMED automata of TA(2,{a:0,b:0,f:1,g:2},<=3 rules) under all renamings", [](Env& e) { smallPairsTrim(e, "c19.small.pairs.trim.n2s3.a3b3", 2, dom::Sigma3(), 3, 3); });
 static Register s7("c19.small.pairs.trim.n2s2.a3b3", "C19", "pairs of TRIMMED automata of TA(2,{a:0,b:0,g:2},<=3 rules) under all state bijections x embeddings x all symbol-id permutations x 2 insertion orders, 4 no-sim variants + down_nonrec_sim", [](Env& e) { smallPairsTrim(e, "c19.small.pairs.trim.n2s2.a3b3", 2, dom::Sigma2(), 3, 3); });
+static Register s7b("c19.small.pairs.trim.n2s2.a3b3.all8", "C19", "pairs of TRIMMED automata of TA(2,{a:0,b:0,g:2},<=3 rules) under all state bijections x embeddings x all symbol-id permutations x 2 insertion orders, ALL 8 variants (with the simulations the library computes itself)", [](Env& e) { smallPairsTrim(e, "c19.small.pairs.trim.n2s2.a3b3.all8", 2, dom::Sigma2(), 3, 3, true); });
+static Register s7c("c19.small.pairs.trim.n2s2.a2b4.all8", "C19", "pairs of TRIMMED automata of TA(2,{a:0,b:0,g:2}): A <=2 x B <=4 rules under all renamings, ALL 8 variants", [](Env& e) { smallPairsTrim(e, "c19.small.pairs.trim.n2s2.a2b4.all8", 2, dom::Sigma2(), 2, 4, true); });
 static Register s8("c19.small.pairs.trim.n2s2.a3b5", "C19", "pairs of TRIMMED automata of TA(2,{a:0,b:0,g:2}): A <=3 x B <=5 rules under all renamings", [](Env& e) { smallPairsTrim(e, "c19.small.pairs.trim.n2s2.a3b5", 2, dom::Sigma2(), 3, 5); });
 static Register s9("c19.small.pairs.trim.n3abf.a3b2", "C19", "pairs of TRIMMED automata of TA(3,{a:0,b:0,f:1}): A <=3 x B <=2 rules under all 6x6 state bijections x embeddings x all 6 symbol-id permutations x 2 insertion orders, ALL 8 variants", [](Env& e) { smallPairsTrim(e, "c19.small.pairs.trim.n3abf.a3b2", 3, dom::SigmaABF(), 3, 2, true); });
 static Register s10("c19.small.pairs.trim.n3abf.a4b2", "C19", "pairs of TRIMMED automata of TA(3,{a:0,b:0,f:1}): A <=4 x B <=2 rules under all renamings, ALL 8 variants", [](Env& e) { smallPairsTrim(e, "c19.small.pairs.trim.n3abf.a4b2", 3, dom::SigmaABF(), 4, 2, true); });
